@@ -10,6 +10,7 @@ from .. import bigdocs, spaces
 from ..engine import seq_iter, seq_shards
 
 ID = "C01"
+OWN_WATCHDOG = True  # hangs are this property's subject: per-case watchdog below
 LEAN = True  # cases are distinct by construction; see engine.Acc
 RULE = (
     "every token sequence over the splitter alphabet up to the length bound, every combination of <=k token edits of 6 base "
@@ -77,6 +78,11 @@ FAMILIES = {
     "backslashes": lambda n: "\\" * n,
     "backslash_newlines": lambda n: "\\\n" * n,
     "crlf_lines": lambda n: "@a{k,\r\n t = {v}\r\n}\r\n" * min(n, 10**5),
+    # @string definitions that refer to each other (bare identifiers as values), used by an entry
+    "string_self_reference": lambda n: "@string{s = s}\n" + "@a{k%d, f = s}\n" * min(n, 1000),
+    "string_cycle": lambda n: "".join("@string{s%d = s%d}\n" % (i, (i + 1) % min(n, 2000)) for i in range(min(n, 2000))) + "@a{k, f = s0, g = s1}",
+    "string_chain": lambda n: "".join("@string{s%d = s%d}\n" % (i, i + 1) for i in range(min(n, 2000))) + '@string{s%d = "end"}\n@a{k, f = s0}' % min(n, 2000),
+    "string_cycle_after_use": lambda n: "@a{k, f = t0}\n" + "".join("@string{t%d = t%d}\n" % (i, (i + 1) % min(n, 50)) for i in range(min(n, 50))),
 }
 # after a complete entry as well
 PREFIXES = ["", "@a{k0, t = {v}}\n"]
@@ -91,7 +97,52 @@ def shards(tier):
     for name in sorted(FAMILIES):
         for n in sizes:
             out.append(("fam", name, n))
+    out += [("history", i) for i in range(len(WORKFLOWS))]
     return out
+
+
+def _workflows():
+    from bibtexparser import middlewares as mw
+
+    return [
+        ("names", dict(append_middleware=[mw.SeparateCoAuthors(), mw.SplitNameParts()]), dict(prepend_middleware=[mw.MergeNameParts(), mw.MergeCoAuthors()])),
+        ("months+latex", dict(append_middleware=[mw.MonthIntMiddleware(), mw.LatexDecodingMiddleware()]), dict(prepend_middleware=[mw.LatexEncodingMiddleware(), mw.MonthAbbreviationMiddleware()])),
+        ("sorting", dict(append_middleware=[mw.NormalizeFieldKeys(), mw.SortFieldsAlphabeticallyMiddleware()]), dict(prepend_middleware=[mw.SortBlocksByTypeAndKeyMiddleware()])),
+        ("explicit stacks", dict(parse_stack=[mw.RemoveEnclosingMiddleware()]), dict(unparse_stack=[mw.AddEnclosingMiddleware(True, False, '"')])),
+        ("empty additions", dict(append_middleware=[]), dict(prepend_middleware=[])),
+    ]
+
+
+WORKFLOWS = ["names", "months+latex", "sorting", "explicit stacks", "empty additions"]
+HISTORY_DOCS = [
+    "@article{k, author = {Ada Lovelace and Turing, Alan}, title = {Caf\\'e {T}}, month = jan, year = 1990}\n",
+    '@string{s = "x"}\n@book{b, editor = "Knuth, D. E.", publisher = s, month = 3}\n% c\n',
+    "@a{bad, author = {A, B, C, D}}\n@b{broken, t = {x\n",
+]
+
+
+def check_history(which, acc):
+    """Earlier calls with custom middleware (the documented workflows) must leave nothing behind: plain
+    parse_string / write_string calls afterwards behave as in a fresh process (here: do not raise)."""
+    import bibtexparser as bp
+
+    name, pkw, wkw = _workflows()[which]
+    for doc in HISTORY_DOCS:
+        acc.trace(2)
+        try:
+            lib = bp.parse_string(doc, **pkw)
+            bp.write_string(lib, **wkw)
+        except Exception as e:
+            # the workflow itself may legitimately fail on a document (e.g. invalid names are error blocks, ints need
+            # enclosing); what matters here is what plain calls do AFTERWARDS
+            acc.raised["workflow:" + type(e).__name__] += 1
+    texts = list(HISTORY_DOCS) + list(spaces.BASE_DOCS)
+    for d in range(len(spaces.BASE_DOCS)):
+        for edits, toks in spaces.deviation_iter(("dev", d, 1, 0, 1), spaces.SIGMA_DOC):
+            texts.append("".join(toks))
+    for text in texts:
+        acc.count("plain_calls_after_workflow")
+        check_text(text, acc, case={"after_workflow": name, "text": text})
 
 
 class _Timeout(Exception):
@@ -112,6 +163,7 @@ def pipeline(text):
 
 
 def check_text(text, acc, case=None, watchdog=None, label=None):
+    _CURRENT[0] = text if len(text) < 5000 else text[:5000]
     case = case if case is not None else {"text": text}
     acc.trace(4)
     stage = "parse_string"
@@ -127,7 +179,7 @@ def check_text(text, acc, case=None, watchdog=None, label=None):
                 signal.alarm(0)
     except _Timeout:
         acc.violation(
-            {"oracle": "no_hang", "family": label},
+            {"oracle": "no_hang", "family": (label or "").split(":")[0]},
             {"case": case, "observed": f"no result after {watchdog}s", "expected": "terminates (seconds)"},
             size=len(text),
         )
@@ -213,7 +265,30 @@ def big_texts(n, v):
         yield text[:cut] + '{"@}'[k % 4] + text[cut:]
 
 
+_CURRENT = [None]
+
+
 def run_shard(shard, tier, acc):
+    kind = shard[0]
+    if kind in ("fam",):
+        return _run_shard(shard, tier, acc)
+    # enumerations: one watchdog for the whole shard (each case needs microseconds; 30 min means a hang)
+    signal.signal(signal.SIGALRM, _alarm)
+    signal.alarm(1800)
+    try:
+        try:
+            _run_shard(shard, tier, acc)
+        finally:
+            signal.alarm(0)
+    except _Timeout:
+        acc.violation(
+            {"oracle": "no_hang", "family": kind},
+            {"case": {"text": _CURRENT[0]}, "observed": "shard did not finish within 1800 s while processing this input", "expected": "terminates (microseconds)"},
+            size=len(_CURRENT[0] or ""),
+        )
+
+
+def _run_shard(shard, tier, acc):
     kind = shard[0]
     if kind == "seq":
         for toks in seq_iter(spaces.SIGMA_DOC, shard[1]):
@@ -228,6 +303,8 @@ def run_shard(shard, tier, acc):
         for text in big_texts(shard[1], shard[2]):
             acc.count("big_texts")
             check_text(text, acc)
+    elif kind == "history":
+        check_history(shard[1], acc)
     elif kind == "fam":
         _, name, n = shard
         wd = 120 if tier == "quick" else 900
@@ -237,7 +314,9 @@ def run_shard(shard, tier, acc):
 
 
 def replay(case, acc):
-    if "family" in case:
+    if "after_workflow" in case:
+        check_history(WORKFLOWS.index(case["after_workflow"]), acc)
+    elif "family" in case:
         text = case["prefix"] + FAMILIES[case["family"]](case["n"])
         check_text(text, acc, case=case, watchdog=900, label=case["family"])
     else:
